@@ -198,6 +198,9 @@ io_status_t MiniPacketTunnelIOGateway :: DoOutputImplementation(uint32 maxBytes)
                DefaultEndianConverter::Export(_sendPacketIDCounter, &writeBuf[2*sizeof(uint32)]);
             }
          }
+
+         // The level-byte has to describe what was done to this payload just now:  the header may have been written during an earlier call (with another level, or patched when deflating didn't help then)
+         DefaultEndianConverter::Export(_sendPacketIDCounter|(defBuf() ? (((uint32)_sendCompressionLevel)<<24) : 0), &writeBuf[2*sizeof(uint32)]);
 #endif
 
          // If bytesWritten is set to zero, we just hold this buffer until our next call.
